@@ -22,6 +22,9 @@ def near(r, base):
 
 def wait_len(r, tier, cur_buf):
     """k for wait(k): boundary directed around the current and the next buffer sizes"""
+    if cur_buf > 200000:
+        # already huge: the List-based model pays O(buffer) per segment, so no further doubling
+        return r.choice([r.range(1, 8), r.range(1, 5000), near(r, 4096)])
     k = r.weighted([("tiny", 20), ("small", 20), ("cur", 25), ("dbl", 15), ("mid", 12), ("big", 7), ("huge", 1)])
     if k == "tiny":
         return r.range(1, 8)
@@ -58,11 +61,21 @@ def payload(r, n, opname):
     return "%sp %d %d" % (opname, r.range(0, 255) + 256 * (_seed[0] % 1000), n)
 
 
-def deliver(r, ops, total, eagain=True):
-    """queue `total` bytes as kernel answers in random segments, with would-block answers sprinkled in"""
+COST = 6000000     # list cells the model may touch per delivery batch (the List model rebuilds the buffer per segment)
+
+
+def grown(buf, k):
+    """buffer size after wait(k) (only used to aim at boundaries and to bound the model's work)"""
+    return buf if k <= buf else max(2 * buf, k)
+
+
+def deliver(r, ops, total, buf=RBUF, eagain=True):
+    """queue `total` bytes as kernel answers in random segments, with would-block answers sprinkled in;
+    `buf` = rough current buffer size: big buffers get proportionally fewer segments"""
     left = total
+    minseg = total * max(buf, RBUF) // COST + 1
     while left > 0:
-        n = min(left, seg_len(r))
+        n = min(left, max(minseg, seg_len(r)))
         if eagain and r.chance(1, 6):
             ops.append("net_eagain")
         ops.append(payload(r, n, "net_deliver"))
@@ -80,7 +93,7 @@ def gen_reader(rng, tier, mult):
         if kind == "stream":
             for _ in range(r.range(1, 7)):
                 k = wait_len(r, tier, buf)
-                buf = max(buf, k if k > 2 * buf else (2 * buf if k > buf else buf))
+                buf = grown(buf, k)
                 ops.append("r_wait %d" % k)
                 if r.chance(1, 5):
                     ops.append("r_peek")
@@ -88,21 +101,21 @@ def gen_reader(rng, tier, mult):
                 tot = r.choice([k, k, k + r.range(0, 5000), max(1, k - r.range(1, 50)), k + 1])
                 parts = r.range(1, 3)
                 for pi in range(parts):
-                    deliver(r, ops, tot // parts if pi < parts - 1 else tot - (tot // parts) * (parts - 1))
+                    deliver(r, ops, tot // parts if pi < parts - 1 else tot - (tot // parts) * (parts - 1), buf)
                     ops.append("spin")
                 if tot < k:
-                    deliver(r, ops, k - tot + r.range(0, 3))
+                    deliver(r, ops, k - tot + r.range(0, 3), buf)
                     ops.append("spin")
                 ops.append("r_peek")
                 ops.append("r_consume_upto %d" % r.choice([k, k, r.range(0, k), k + 7, 0]))
         elif kind == "cancel":
             for _ in range(r.range(1, 4)):
                 k = wait_len(r, tier, buf) if r.chance(2, 3) else r.range(2, 300)
-                buf = max(buf, k if k > 2 * buf else (2 * buf if k > buf else buf))
+                buf = grown(buf, k)
                 part = r.range(0, k - 1)
                 ops.append("r_wait %d" % k)
                 if part:
-                    deliver(r, ops, part)
+                    deliver(r, ops, part, buf)
                 ops.append("spin")
                 ops.append("r_cancel")
                 if r.chance(1, 2):
@@ -111,7 +124,7 @@ def gen_reader(rng, tier, mult):
                     ops.append("r_consume_upto %d" % r.range(0, part + 1))
                 if r.chance(1, 4):
                     ops.append("r_cancel")          # idempotent
-                deliver(r, ops, k - part + r.range(0, 20))
+                deliver(r, ops, k - part + r.range(0, 20), buf)
                 k2 = r.choice([k, k, r.range(1, k), k + r.range(1, 10)])
                 ops.append("r_wait %d" % k2)
                 if r.chance(1, 6):
@@ -124,14 +137,15 @@ def gen_reader(rng, tier, mult):
             tot = r.range(0, 3 * RBUF) if r.chance(3, 4) else r.range(0, 40)
             k = max(1, r.choice([tot, tot + 1, max(1, tot - 1), r.range(1, tot + 2), wait_len(r, tier, buf)]))
             end = r.choice(["net_eof", "net_err"])
+            buf = grown(buf, k)
             if r.chance(1, 2):
                 ops.append("r_wait %d" % k)
                 if tot:
-                    deliver(r, ops, tot)
+                    deliver(r, ops, tot, buf)
                 ops.append(end)
             else:
                 if tot:
-                    deliver(r, ops, tot)
+                    deliver(r, ops, tot, buf)
                 ops.append(end)
                 ops.append("r_wait %d" % k)
             ops.append("spin")
@@ -147,7 +161,7 @@ def gen_reader(rng, tier, mult):
             # compaction without growth / growth from a non-zero offset / neither
             fill = r.choice([RBUF, RBUF - 1, r.range(1, RBUF), r.range(1, RBUF)])
             ops.append("r_wait %d" % fill)
-            deliver(r, ops, fill, eagain=False)
+            deliver(r, ops, fill, buf, eagain=False)
             ops.append("spin")
             off = r.choice([fill, fill - 1, r.range(0, fill), r.range(0, fill), 1, 0])
             ops.append("r_consume_upto %d" % max(0, off))
@@ -155,13 +169,13 @@ def gen_reader(rng, tier, mult):
             k = max(1, r.choice([room, room + 1, room - 1, RBUF, RBUF + 1, 2 * RBUF, 2 * RBUF + 1, r.range(1, 3 * RBUF)]))
             ops.append("r_wait %d" % k)
             ops.append("r_peek")
-            deliver(r, ops, k + r.range(0, 100))
+            deliver(r, ops, k + r.range(0, 100), 4 * RBUF)
             ops.append("spin")
             ops.append("r_peek")
             ops.append("r_consume_upto %d" % r.choice([k, r.range(0, k)]))
             k3 = wait_len(r, tier, 2 * RBUF)
             ops.append("r_wait %d" % k3)
-            deliver(r, ops, k3)
+            deliver(r, ops, k3, grown(4 * RBUF, k3))
             ops.append("spin")
             ops.append("r_peek")
         else:
@@ -171,9 +185,9 @@ def gen_reader(rng, tier, mult):
             cnt = r.range(1, 12)
             tot = r.choice([k * (cnt + 1), k * cnt + r.range(0, k), r.range(0, k * (cnt + 1))])
             if r.chance(1, 2):
-                deliver(r, ops, tot // 2)
+                deliver(r, ops, tot // 2, 4 * RBUF)
             ops.append("r_loop %d %d %d" % (j, k, cnt))
-            deliver(r, ops, tot - tot // 2 if tot - tot // 2 > 0 else 1)
+            deliver(r, ops, tot - tot // 2 if tot - tot // 2 > 0 else 1, 4 * RBUF)
             if r.chance(1, 3):
                 ops.append(r.choice(["net_eof", "net_err"]))
             ops.append("spin")
